@@ -87,6 +87,31 @@ BadDesignators == { [t |-> "-1", why |-> "negative"], [t |-> "2.5", why |-> "non
 BadCases     == { [form |-> "bad:" \o bd.why, text |-> "int m = 8; " \o b \o "[" \o bd.t \o "] x;", sym |-> "x",
                    expect |-> [type |-> "", fits |-> FALSE, wd |-> bd.t]] : b \in {"int", "bit", "qubit", "float"}, bd \in BadDesignators }
 
+(* literal designators in every spelling of an integer literal: digit separators, the three base prefixes *)
+DesignatorSpellings == { [src |-> "1_6", val |-> "16"], [src |-> "1_0_0", val |-> "100"], [src |-> "0x10", val |-> "16"], [src |-> "0X1_0", val |-> "16"],
+                         [src |-> "0b101", val |-> "5"], [src |-> "0o17", val |-> "15"], [src |-> "0_8", val |-> "8"] }
+SpellingCases ==
+     { DeclCase("spelling", Written(b, [d |-> sp.src, fits |-> TRUE]) \o " x;", "x", Exp(b, [d |-> sp.val, fits |-> TRUE], FALSE)) : sp \in DesignatorSpellings, b \in {"int", "uint", "float", "angle", "bit", "qubit"} }
+  \cup { DeclCase("spelling-param", "def f(" \o Written(b, [d |-> sp.src, fits |-> TRUE]) \o " x) { }", "x", Exp(b, [d |-> sp.val, fits |-> TRUE], FALSE)) : sp \in DesignatorSpellings, b \in {"int", "bit"} }
+  \cup { DeclCase("spelling-io", "input " \o Written(b, [d |-> sp.src, fits |-> TRUE]) \o " x;", "x", Exp(b, [d |-> sp.val, fits |-> TRUE], FALSE)) : sp \in DesignatorSpellings, b \in {"int", "bit"} }
+(* the designator of a parameter type names an EARLIER parameter of the same subroutine (not a constant: diagnosed, whatever *)
+(* constant of that name exists outside), or a constant that no parameter hides                                            *)
+ParamDesignatorCases ==
+     { [form |-> "bad:param-designator-names-parameter", text |-> pre \o "def f(int n, " \o b \o "[n] x) { }", sym |-> "x", expect |-> [type |-> "", fits |-> FALSE, wd |-> "n"]] :
+         pre \in {"", "const int n = 4; "}, b \in {"int", "bit", "float"} }
+  \cup { DeclCase("param-designator-const", "const int n = 4; def f(int m, " \o Written(b, [d |-> "n", fits |-> TRUE]) \o " x) { }", "x", Exp(b, W4, FALSE)) : b \in {"int", "bit", "float"} }
+
+(* identifiers that are const-typed but carry no integer value: built-in real constants, qubits, gates, subroutines, *)
+(* gate angle parameters, constants initialised from a non-constant or a real number - in both orders relative to a  *)
+(* constant that has a value                                                                                         *)
+BadIdPrograms == { [pre |-> "", id |-> "pi"], [pre |-> "const int n = 4; ", id |-> "pi"], [pre |-> "qubit q; ", id |-> "q"], [pre |-> "const int n = 4; qubit q; ", id |-> "q"],
+                   [pre |-> "def h() { } ", id |-> "h"], [pre |-> "gate h a { } const int n = 4; ", id |-> "h"], [pre |-> "int y = 2; const int m = y; ", id |-> "m"],
+                   [pre |-> "const int n = 4; int y = 2; const int m = y; ", id |-> "m"], [pre |-> "int y = 2; const int m = y; const int n = 4; ", id |-> "m"],
+                   [pre |-> "const float f = 2.5; ", id |-> "f"], [pre |-> "const int n = 4; const float f = 2.5; ", id |-> "f"], [pre |-> "", id |-> "U"], [pre |-> "", id |-> "zz"] }
+BadIdCases == { [form |-> "bad:identifier-without-integer-value", text |-> bp.pre \o b \o "[" \o bp.id \o "] x;", sym |-> "x",
+                 expect |-> [type |-> "", fits |-> FALSE, wd |-> bp.id]] : bp \in BadIdPrograms, b \in {"int", "bit", "qubit", "float"} }
+               \cup { [form |-> "bad:identifier-without-integer-value", text |-> "gate g(t) r { " \o b \o "[t] x; }", sym |-> "x", expect |-> [type |-> "", fits |-> FALSE, wd |-> "t"]] : b \in {"int", "bit"} }
+
 (* ... also when the negative number reaches the designator through a constant, whatever the declared width of the   *)
 (* constant (the initializer is then stored with or without a cast)                                                  *)
 NegConstCases == { [form |-> "bad:negative-const", text |-> "const " \o ct \o " n = -3; " \o b \o "[n] x;", sym |-> "x",
@@ -168,6 +193,7 @@ RowsOK == { r \in UNION { { Row(st, T, tc, V, f) : f \in FormsFor(V) } : st \in 
 Lits == { [t |-> "5", cls |-> "int", base |-> "Int", neg |-> FALSE], [t |-> "-5", cls |-> "int", base |-> "Int", neg |-> TRUE],
           [t |-> "2.5", cls |-> "float", base |-> "Float", neg |-> FALSE], [t |-> "2im", cls |-> "complex", base |-> "Complex", neg |-> FALSE],
           [t |-> "2.5im", cls |-> "complex", base |-> "Complex", neg |-> FALSE], [t |-> "true", cls |-> "bool", base |-> "Bool", neg |-> FALSE],
+          [t |-> "-2.5im", cls |-> "complex", base |-> "Complex", neg |-> TRUE], [t |-> "-2.5", cls |-> "float", base |-> "Float", neg |-> TRUE], [t |-> "-2 im", cls |-> "complex", base |-> "Complex", neg |-> TRUE],
           [t |-> "\"0101\"", cls |-> "bit", base |-> "BitArray", neg |-> FALSE], [t |-> "10ns", cls |-> "duration", base |-> "Duration", neg |-> FALSE] }
 LitMust(T, l) == \/ (Numeric(T) /\ l.cls \in {"int", "float", "complex"} /\ Rank(l.cls) > Rank(T.b))
                  \/ (T.b = "uint" /\ l.neg)
@@ -242,7 +268,7 @@ ArithFormRows ==
            common |-> Common2(l.T, B), intdiv |-> (o = "/" /\ Rank(l.T.b) = 1 /\ Rank(B.b) = 1)] :
        o \in ArithOps, B \in NumTypes, L \in LitTypes }
 
-C09Cases == PlainCases \cup ConstCases \cup InitCases \cup QubitCases \cup IOCases \cup ForCases \cup ParamCases \cup ConstIdCases \cup ScopedConstIdCases \cup ShadowConstIdCases \cup ScopeCases \cup BadCases \cup NegConstCases
+C09Cases == PlainCases \cup ConstCases \cup InitCases \cup QubitCases \cup IOCases \cup ForCases \cup ParamCases \cup ConstIdCases \cup ScopedConstIdCases \cup ShadowConstIdCases \cup ScopeCases \cup BadCases \cup SpellingCases \cup ParamDesignatorCases \cup BadIdCases \cup NegConstCases
 ASSUME \A x \in C09Cases : PrintT(<<"DECL", ToJson(x)>>)
 ASSUME \A x \in GateCases \cup DefCases \cup DefRetCases : PrintT(<<"SIG", ToJson(x)>>)
 ASSUME \A x \in CollisionCases : PrintT(<<"LISTING", ToJson(x)>>)
